@@ -315,3 +315,53 @@ package mqtt
 //@        evArg[context.Context]("context.Context.Err", 0, 0) == ctx && asError(result).Err == evRet[error]("context.Context.Err", 0, 0)
 //@   ensures[C11,C19] closed_cause: evCount("select") == 1 && evRet[int]("select", 0, 0) == 0 ==> asError(result) != nil && asError(result).Err == ErrClosedTransport
 //@   ensures[C19] not_connected: sig0 == nil ==> result == ErrNotConnected && evCount("(*BaseClient).write") == 0
+
+// ---- Connect (C05, C07, C09, C11, C16, C17) ----
+
+// user-supplied option functions: may fill in the options they are given (caller obligation: the
+// resulting CONNECT fields fit the protocol's length fields, will QoS <= 2)
+//@ fntype ConnectOption
+//@   shape o *ConnectOptions -> result error
+//@   assigns *o
+//@   ensures len(o.UserName) <= 0xFFFF && len(o.Password) <= 0xFFFF
+//@   ensures o.Will == nil || (o.Will.QoS <= QoS2 && len(o.Will.Topic) <= 0xFFFF && len(o.Will.Payload) <= 0xFFFF)
+
+//@ func (*BaseClient).Handle
+//@   mode int
+//@   props C17
+//@   requires c != nil
+//@   assigns c.handler
+//@   ensures[C17] c.handler == handler
+
+//@ func (*BaseClient).init
+//@   mode int
+//@   props C16 C17
+//@   inline
+//@   requires c != nil
+//@   assigns c.sig; c.connClosed; c.idLast
+//@   ensures[C16] c.sig != nil && fresh(c.sig) && c.connClosed != nil && fresh(c.connClosed) && !closed(c.connClosed)
+
+//@ func (*BaseClient).Connect
+//@   mode int
+//@   props C05 C07 C09 C11 C16 C17
+//@   requires c != nil && ctx != nil && c.Transport != nil && len(clientID) <= 0xFFFF
+//@   requires forall(0, len(opts), func(i int) bool { return opts[i] != nil })
+//@   assigns c.sig; c.connClosed; c.idLast; c.connState; c.err
+//@   loop 1 invariant o != nil && len(o.UserName) <= 0xFFFF && len(o.Password) <= 0xFFFF && (o.Will == nil || (o.Will.QoS <= QoS2 && len(o.Will.Topic) <= 0xFFFF && len(o.Will.Payload) <= 0xFFFF))
+//@   ensures[C16] active: result1 == nil ==> evCount("(*BaseClient).connStateUpdate") == 1 && evArg[ConnState]("(*BaseClient).connStateUpdate", 0, 1) == StateActive &&
+//@        evCount("select") == 1 && evRet[int]("select", 0, 0) == 2 && evRet[*pktConnAck]("select", 0, 4).Code == ConnectionAccepted &&
+//@        result0 == evRet[*pktConnAck]("select", 0, 4).SessionPresent
+//@   ensures[C16] inactive: result1 != nil ==> evCount("(*BaseClient).connStateUpdate") == 0 && !result0
+//@   ensures[C16] refused: evCount("select") == 1 && evRet[int]("select", 0, 0) == 2 && evRet[*pktConnAck]("select", 0, 4).Code != ConnectionAccepted ==> result1 != nil
+//@   ensures[C05,C09] wire: evCount("(*BaseClient).write") <= 1 && (evCount("(*BaseClient).write") == 1 ==> evCount("(*pktConnect).Pack") == 1 &&
+//@        evArg[*pktConnect]("(*pktConnect).Pack", 0, 0).ClientID == clientID &&
+//@        seqEq(evBytes("(*BaseClient).write", 0, 1), seqOf(evRet[[]byte]("(*pktConnect).Pack", 0, 0))))
+//@   ensures[C06,C11,C16] reader: evCount("(*BaseClient).write") == 1 ==> evCount("go:(*BaseClient).Connect$1") == 1 &&
+//@        evIndex("go:(*BaseClient).Connect$1", 0) < evIndex("(*BaseClient).write", 0)
+//@   ensures[C07] waiter: evCount("select") == 1 ==> fresh(evArg[chan *pktConnAck]("select", 0, 2)) && evIndex("(*BaseClient).write", 0) < evIndex("select", 0)
+//@   ensures[C11] waitset: evCount("select") == 1 ==> evArg[chan struct{}]("select", 0, 0) == c.connClosed &&
+//@        evArg[<-chan struct{}]("select", 0, 1) == evRet[<-chan struct{}]("context.Context.Done", 0, 0) && evArg[context.Context]("context.Context.Done", 0, 0) == ctx
+//@   ensures[C11] no_bare_block: evCount("recv") == 0 && evCount("send") == 0
+//@   ensures[C11,C19] cancel_cause: evCount("select") == 1 && evRet[int]("select", 0, 0) == 1 && asError(result1) != nil ==>
+//@        evArg[context.Context]("context.Context.Err", 0, 0) == ctx && asError(result1).Err == evRet[error]("context.Context.Err", 0, 0)
+//@   ensures[C11,C19] closed_cause: evCount("select") == 1 && evRet[int]("select", 0, 0) == 0 ==> result1 == ErrClosedTransport
